@@ -266,6 +266,26 @@ LATE_DEFS = [
 ]
 
 
+# ... DEF bodies that call the function being defined, or an earlier one, with the wrong arity or kind (the checker must
+# know the function while it checks the body: seeded change C06-mut8), with controls that fit
+DEF_SELF = [
+    ["10 DEF FNA(X,Y) = FNA(X) + Y", "20 PRINT FNA(1,2)"],
+    ["10 DEF FNB(X$) = FNB(1) + 1", '20 PRINT FNB("S")'],
+    ["10 DEF FNC(X) = X + 1", "20 DEF FND(X) = FNC(X, 1)", "30 PRINT FND(1)"],
+    ['10 DEF G$(X$) = G$(X$, "a")', '20 PRINT G$("b")'],
+    ["10 DEF FNE(X) = X * 2", "20 DEF FNF(X) = FNE(X) + FNE(1)", "30 PRINT FNF(2)"],
+    ["10 DEF H(N) = H(N - 1) + 1", "20 PRINT H(3)"],
+]
+# ... and many rejected lines in front of valid ones: what an error leaves behind in the checker (nesting depth, cursor)
+# must not make it reject a later valid line (seeded change C06-mut7)
+ERROR_PILES = [
+    [f'{10 * k} PRINT ((((((((((1 + "a"))))))))))' for k in range(1, 9)] + ["900 PRINT 1 + 1", "910 A = 2 : PRINT A"],
+    [f'{10 * k} X = ABS(ABS(ABS(ABS(ABS(ABS(ABS("s")))))))' for k in range(1, 12)] + ["900 Y = ABS(ABS(1))", '910 Z$ = "a" + "b"'],
+    [f"{10 * k} PRINT N(N(N(N(N(N(N(N(1 +)))))))))" for k in range(1, 10)] + ["900 PRINT N(N(1))", "910 DIM Q(2) : Q(1) = 3"],
+]
+C06_FIXED = LATE_DEFS + DEF_SELF + ERROR_PILES
+
+
 def late_def_calls(lines):
     """call sites NAME( on a line whose number is lower than the line that holds DEF NAME( : (line number, name) pairs"""
     defs = {}
@@ -289,7 +309,7 @@ def late_def_calls(lines):
 
 def else_resume_program(r, k):
     if k >= len(ELSE_RESUME) + ELSE_TREES:
-        return LATE_DEFS[k - len(ELSE_RESUME) - ELSE_TREES]
+        return C06_FIXED[k - len(ELSE_RESUME) - ELSE_TREES]
     if k >= len(ELSE_RESUME):
         return else_tree_program(r, k - len(ELSE_RESUME))
     lead, a, b, then = ELSE_RESUME[k]
@@ -306,11 +326,11 @@ def run_c06(chk):
     n = 160 if chk.tier == "quick" else 5000
     an_cases = []
     sessions = []
-    for i in range(n + len(ELSE_RESUME) + ELSE_TREES + len(LATE_DEFS)):
+    for i in range(n + len(ELSE_RESUME) + ELSE_TREES + len(C06_FIXED)):
         r = chk.rng.fork(("c06", i))
         flavour = r.weighted([("typed", 35), ("faulty", 30), ("straight", 20), ("tree", 15)])
         if i >= n:
-            flavour = "else-resume" if i - n < len(ELSE_RESUME) + ELSE_TREES else "late-def"
+            flavour = "else-resume" if i - n < len(ELSE_RESUME) + ELSE_TREES else "fixed-def-and-error-families"
             lines = else_resume_program(r, i - n)
         elif flavour == "tree":
             # structured programs from the syntax-tree generator of C03: every IF/ELSE form with statements before and
